@@ -165,8 +165,8 @@ class BaseFileWriterSession(BaseWriterSession):
         '''
         new_filename = filename + '-new'
 
-        with open('wb') as new_file:
-            new_file.write(response.header())
+        with open(new_filename, 'wb') as new_file:
+            new_file.write(response.to_bytes())
 
             with wpull.util.reset_file_offset(response.body):
                 response.body.seek(0)
@@ -308,8 +308,9 @@ class BaseFileWriterSession(BaseWriterSession):
 
     def save_document(self, response: BaseResponse):
         if self._filename and os.path.exists(self._filename):
-            if self._headers_included:
-                self.save_headers(self._filename, response)
+            if self._headers_included and \
+                    response.request.url_info.scheme in ('http', 'https'):
+                self.save_headers(self._filename, cast(HTTPResponse, response))
 
             if self._local_timestamping and \
                     response.request.url_info.scheme in ('http', 'https'):
